@@ -11,6 +11,7 @@ import (
 	"encoding/binary"
 	"fmt"
 	"io"
+	"strings"
 
 	"github.com/WICG/webpackage/go/signedexchange/mice"
 	"github.com/WICG/webpackage/go/zz_verif/mon"
@@ -68,7 +69,7 @@ type obs struct {
 	panicked      bool
 	pv            any
 	stuck         bool
-	afterError    int // bytes handed out by Read calls made after the first error
+	afterError    int  // bytes handed out by Read calls made after the first error
 	eofAfterError bool // a Read made after the first error reported a clean end of stream
 }
 
@@ -372,6 +373,12 @@ func run(r *mon.Run) {
 					"nolabel":       b64(d.ref).EncodeToString(top),
 					"empty":         "",
 					"garbage":       d.ref.Label() + "=!!!!",
+					// characters a base64 decoder may skip silently: a value of the right LENGTH that decodes to nothing
+					"only-newlines":  d.ref.Label() + "=" + strings.Repeat("\n", len(b64(d.ref).EncodeToString(top))),
+					"only-crlf":      d.ref.Label() + "=" + strings.Repeat("\r\n", len(b64(d.ref).EncodeToString(top))/2) + strings.Repeat("\n", len(b64(d.ref).EncodeToString(top))%2),
+					"newline-padded": d.ref.Label() + "=" + b64(d.ref).EncodeToString(top[:16]) + strings.Repeat("\n", len(b64(d.ref).EncodeToString(top))-len(b64(d.ref).EncodeToString(top[:16]))),
+					"only-padding":   d.ref.Label() + "=" + strings.Repeat("=", len(b64(d.ref).EncodeToString(top))),
+					"zero-proof":     d.ref.Label() + "=" + b64(d.ref).EncodeToString(make([]byte, 32)),
 				} {
 					if _, e := rmice.ParseHeader(d.ref, md); e == nil {
 						continue // same bytes in both alphabets: a valid digest
@@ -470,6 +477,10 @@ func judgeMalformed(r *mon.Run, d draft, stream []byte, digest string, payload [
 	case !bytes.HasPrefix(payload, o.out):
 		outcome = "UNAUTHENTICATED-OUTPUT"
 		r.Violation(key+":output", fmt.Sprintf("decoder given the malformed digest %q released data that is not the honest payload", digest), det)
+	case (o.cleanEOF || o.eofAfterError) && !bytes.Equal(o.out, payload):
+		// whatever a lenient decoder makes of such a header, the only payload this stream can authenticate is the honest one
+		outcome = "EOF-WITHOUT-PAYLOAD"
+		r.Violation(key+":eof", fmt.Sprintf("decoder given the malformed digest %q reported a clean end of stream after %d of %d payload bytes", digest, len(o.out), len(payload)), det)
 	case o.newErr == nil:
 		outcome += "(accepted-leniently)"
 	default:
